@@ -36,20 +36,29 @@ var vPow10 = func() []*big.Rat {
 	return out
 }()
 
-var vRelSlack = big.NewRat(1, 1000000000000) // 1e-12: float64 keeps 1.1e-16 per operation; sums of thousands of terms stay far below
+// vRelSlack(n): the relative error float64 arithmetic may accumulate over n operations (each keeps 1.1e-16; the bound
+// (n+4) * 2.3e-16 leaves a factor two), applied to the sum of the magnitudes of the terms. A tolerance that grows with the
+// number of operations instead of a flat 1e-12 keeps "a sum far below its terms is printed as zero" visible at every scale.
+func vRelSlack(n int) *big.Rat {
+	if n < 1 {
+		n = 1
+	}
+	return new(big.Rat).Mul(big.NewRat(int64(n)+4, 1), big.NewRat(23, 100000000000000000))
+}
 
 // vVal is an exact value together with the sum of the magnitudes of the terms
 // it was built from (bounds the floating-point error of any summation order).
 type vVal struct {
 	V   *big.Rat
 	Mag *big.Rat
+	N   int // number of arithmetic operations behind the value
 }
 
-func vValOf(r *big.Rat) vVal   { return vVal{new(big.Rat).Set(r), vRatAbs(r)} }
-func vValZero() vVal           { return vVal{new(big.Rat), new(big.Rat)} }
-func (a vVal) Add(b vVal) vVal { return vVal{vRatAdd(a.V, b.V), vRatAdd(a.Mag, b.Mag)} }
+func vValOf(r *big.Rat) vVal   { return vVal{new(big.Rat).Set(r), vRatAbs(r), 1} }
+func vValZero() vVal           { return vVal{new(big.Rat), new(big.Rat), 0} }
+func (a vVal) Add(b vVal) vVal { return vVal{vRatAdd(a.V, b.V), vRatAdd(a.Mag, b.Mag), a.N + b.N + 1} }
 func (a vVal) Scale(k *big.Rat) vVal {
-	return vVal{vRatMul(a.V, k), vRatMul(a.Mag, vRatAbs(k))}
+	return vVal{vRatMul(a.V, k), vRatMul(a.Mag, vRatAbs(k)), a.N + 1}
 }
 func (a vVal) String() string { return a.V.FloatString(6) }
 
@@ -58,6 +67,10 @@ var vNumRe = regexp.MustCompile(`^-?\d+(\.\d+)?$`)
 // vNumClose: printed (fixed-point with `decimals` decimals) is within half a
 // unit of the last digit of want, plus 1e-9*(1+mag) for float rounding.
 func vNumClose(printed string, want *big.Rat, decimals int, mag *big.Rat) bool {
+	return vNumCloseN(printed, want, decimals, mag, 1)
+}
+
+func vNumCloseN(printed string, want *big.Rat, decimals int, mag *big.Rat, n int) bool {
 	printed = strings.TrimSpace(printed)
 	if !vNumRe.MatchString(printed) {
 		return false
@@ -76,12 +89,12 @@ func vNumClose(printed string, want *big.Rat, decimals int, mag *big.Rat) bool {
 	} else {
 		m.Add(m, vRatAbs(want))
 	}
-	tol.Add(tol, vRatMul(vRelSlack, m))
+	tol.Add(tol, vRatMul(vRelSlack(n), m))
 	return vRatAbs(vRatSub(p, want)).Cmp(tol) <= 0
 }
 
 func vValClose(printed string, want vVal, decimals int) bool {
-	return vNumClose(printed, want.V, decimals, want.Mag)
+	return vNumCloseN(printed, want.V, decimals, want.Mag, want.N)
 }
 
 // vFloatClose: a float64 result equals the exact value up to 1e-12 relative
@@ -91,7 +104,7 @@ func vFloatClose(got float64, want vVal) bool {
 	if g.SetFloat64(got) == nil {
 		return false
 	}
-	tol := vRatMul(big.NewRat(1, 1000000000000), want.Mag)
+	tol := vRatMul(vRelSlack(want.N), want.Mag)
 	return vRatAbs(vRatSub(g, want.V)).Cmp(tol) <= 0
 }
 
